@@ -7,22 +7,29 @@ arbitrary bytes never panics, and every certificate it accepts obeys the structu
 enforces."
 
 What is proved here, for the code after the repairs of finding F06 (validate refuses what the decoders refuse;
-issued validity bounds are whole seconds):
- * the decoders are total functions (`Model/CertV1.lean`, `Model/CertV2.lean` have no panic outcome; all reads
-   are bounds-checked readers of `Base/Der` / `Base/CertPb`), and whatever they accept is a fixed point of /
-   accepted by `validate` — the rules signing enforces (`decoded_obeys_rules_v1/v2`, `rules_v2`);
- * what signing issues has exactly the shape the decoders demand — the statement that was false before the
-   repairs (`issued_is_decodable_shape`): v2 name of 1…253 bytes, no empty group, whole-second bounds;
- * the raw details of a decoded v2 certificate are one self-delimiting element and the handshake form decodes
-   to the same certificate as the standard form (`handshake_form_agrees_v2`);
- * concrete round trips, evaluated in the kernel, of both encodings (`example`s).
-`roundtrip_v2_partial`: the general "decode (encode c) = c" is stated with the details-codec round trip as an
-explicit hypothesis; it is exercised on every issued certificate by the `certcodec` correspondence stream
-(model encoder = real encoder byte for byte, model decoder = real decoder), not proved in general.
+issued validity bounds are whole seconds), for all inputs:
+ * **decode ∘ encode = id for both codecs, no codec hypothesis**: `roundtrip_v2`, `roundtrip_v2_handshake`
+   (DER: all five length forms, minimal two's-complement INTEGERs of 1…8 octets, OCTET STRING / UTF8String lists,
+   optional fields, envelope; `Lemmas/DerRT`, `DerInt`, `CertV2RT`) and `roundtrip_v1`, `roundtrip_v1_handshake`
+   (protobuf: varints via the shared `Lemmas/Wire`, packed repeated uint32, strings, nested messages;
+   `Lemmas/CertPb`, `CertV1Pb`, `CertV1RT`), each returning the certificate itself (all fields) and, for v2, the
+   encoder's raw details, hence the same fingerprint preimage (`roundtrip_v2_fingerprint`);
+ * `decode_total`: every decoder returns a certificate or an error value on every input (no panic outcome);
+ * whatever the decoders accept is accepted by / a fixed point of `validate` (`decoded_obeys_rules_v1/v2`,
+   `rules_v2`, `decoded_v2_fixed_point`, `decoded_v1_ok`), and what `SignWith` issues has the shape the decoders
+   demand and is a fixed point of `validate` (`issued_is_decodable_shape`, `issued_v2_fixed_point`);
+ * the handshake form decodes to the same certificate as the standard form (`handshake_form_agrees_v2`).
+The hypotheses of the round-trip theorems are the shape predicates `V2OK` / `V1OK` (fixed point of `validate`,
+prefix values inside their address family, whole-second bounds within int64 seconds, hex issuer, curve value in
+its Go type, non-empty signature) and a size bound (`MaxCertificateSize` for v2, 2^64 for v1 length prefixes);
+both predicates are inhabited (`example`s) and hold for what the decoders return.
 -/
 import Nebula.Lemmas.CertV2
 import Nebula.Lemmas.CertSign
 import Nebula.Model.CertV1
+import Nebula.Lemmas.CertV1RT
+import Nebula.Lemmas.CertV2RT
+import Nebula.Lemmas.CertV2Idem
 
 namespace Nebula.Props.C03
 open Nebula.Net Nebula.Cert Nebula.Lemmas.CertV2 Nebula.Lemmas.CertSign
@@ -120,28 +127,143 @@ theorem handshake_form_agrees_v2 (b b' pk pk' : List UInt8) (cv cv' : Nat) (c c'
   rw [hv] at hv'
   exact Except.ok.inj hv'
 
-/-- `roundtrip_v2_partial`: decoding the standard encoding of a validated certificate gives it back, provided
-the decoder reads this particular encoding's envelope and details back (`henv`, `hdet`: the codec round trip,
-tied by correspondence). What is *proved* is that nothing else can go wrong: the result is then exactly the
-certificate, and its raw details are the encoder's. -/
-theorem roundtrip_v2_partial (c : Cert) (rd : List UInt8) (hval : validateV2 c = .ok c)
-    (std : List UInt8) (hstd : std = V2.marshal rd c.curve (some c.publicKey) c.signature)
-    (r : Cert × List UInt8) (henv : V2.unmarshal std [] 0 = .ok r) (hrd : r.2 = rd)
-    (hfield : r.1.curve = c.curve ∧ r.1.publicKey = c.publicKey ∧ r.1.signature = c.signature)
-    (hdet : V2.unmarshalDetails rd = some { c with curve := 0, publicKey := [], signature := [] }) :
-    r.1 = c := by
-  obtain ⟨c', rd'⟩ := r
-  simp only at hrd hfield ⊢
-  subst hrd
-  obtain ⟨-, -, d, hd, hv⟩ := unmarshal_ok std [] 0 c' rd' henv
-  rw [hdet] at hd
-  cases hd
-  simp only [hfield.1, hfield.2.1, hfield.2.2] at hv
-  have : ({ c with curve := c.curve, publicKey := c.publicKey, signature := c.signature } : Cert) = c := rfl
-  rw [hval] at hv
-  exact (Except.ok.inj hv).symm
+open Nebula.Lemmas.CertV2RT in
+/-- **v2 round trip, standard form** — `unmarshalCertificateV2 (Marshal c) = c`, and the raw details are the
+encoder's — for every certificate of the shape `validate` produces (`V2OK`: a fixed point of `validate`, i.e.
+name of 1…253 bytes, no empty group, sorted duplicate-free networks, a key; prefixes inside their family;
+whole-second bounds within int64 seconds; hex issuer; one-byte curve; non-empty signature) whose encoding fits
+`MaxCertificateSize`. Any name, any groups, any number of IPv4/IPv6 networks and unsafe networks, both curves,
+CA or host; all five DER length forms and all INTEGER lengths are covered by the field lemmas. -/
+theorem roundtrip_v2 (c : Cert) (h : V2OK c) (rd : List UInt8) (he : V2.encodeDetails c = some rd)
+    (hsz : (V2.marshal rd c.curve (some c.publicKey) c.signature).length ≤ 65536) :
+    V2.unmarshal (V2.marshal rd c.curve (some c.publicKey) c.signature) [] 0 = .ok (c, rd) :=
+  unmarshal_marshal c h rd he hsz
+
+open Nebula.Lemmas.CertV2RT in
+/-- **v2 round trip, handshake form**: `Recombine(Version2, MarshalForHandshakes(c), c.PublicKey(), c.Curve()) = c`. -/
+theorem roundtrip_v2_handshake (c : Cert) (h : V2OK c) (rd : List UInt8) (he : V2.encodeDetails c = some rd)
+    (hsz : (V2.marshalForHandshakes rd c.signature).length ≤ 65536) :
+    V2.recombine (V2.marshalForHandshakes rd c.signature) c.publicKey c.curve = .ok (c, rd) :=
+  recombine_marshalForHandshakes c h rd he hsz
+
+open Nebula.Lemmas.CertV2RT in
+/-- The fingerprint survives: the decoded certificate carries the encoder's raw details, curve, key and
+signature, so the SHA-256 preimage `rawDetails ‖ curve ‖ publicKey ‖ signature` is the same byte string. -/
+theorem roundtrip_v2_fingerprint (c : Cert) (h : V2OK c) (rd : List UInt8) (he : V2.encodeDetails c = some rd)
+    (hsz : (V2.marshal rd c.curve (some c.publicKey) c.signature).length ≤ 65536) :
+    ∃ c' rd', V2.unmarshal (V2.marshal rd c.curve (some c.publicKey) c.signature) [] 0 = .ok (c', rd') ∧
+      V2.fingerprintBytes rd' c'.curve c'.publicKey c'.signature = V2.fingerprintBytes rd c.curve c.publicKey c.signature :=
+  ⟨c, rd, unmarshal_marshal c h rd he hsz, rfl⟩
+
+/-- `validate` is idempotent, so every v2 certificate the decoder returns and every v2 certificate `SignWith`
+issues is a fixed point of `validate` — the first hypothesis of `roundtrip_v2` ("every certificate satisfying
+`validate`"). -/
+theorem decoded_v2_fixed_point (b pk : List UInt8) (cv : Nat) (c : Cert) (rd : List UInt8)
+    (h : V2.unmarshal b pk cv = .ok (c, rd)) : validateV2 c = .ok c := by
+  obtain ⟨x, hx, -⟩ := decoded_obeys_rules_v2 b pk cv c rd h
+  exact Nebula.Lemmas.CertV2Idem.validateV2_idem x c hx
+
+theorem issued_v2_fixed_point (E : SignEnv) (signer : Option Cert) (kc : Nat) (t c : Cert)
+    (h : signWith E signer kc t = .ok c) (hv : t.version = 2) : validateV2 c = .ok c := by
+  obtain ⟨-, iss, -, v, hval, -, -, sig, -, -, -, -, rfl⟩ := (signWith_ok_iff E signer kc t c).mp h
+  unfold validateVersion at hval
+  have h1 : ¬ (fromTBS t iss).version = 1 := by simp only [fromTBS]; omega
+  have h2 : (fromTBS t iss).version = 2 := by simp only [fromTBS]; omega
+  simp only [h2, if_true, Option.some.injEq] at hval
+  have hv2 : validateV2 (fromTBS t iss) = .ok v := by simpa using hval
+  have := Nebula.Lemmas.CertV2Idem.validateV2_idem _ _ hv2
+  exact validateV2_signature v v sig this
+
+/-- **decode_total**: the decoders are total functions of their input — for every byte string, key and curve
+each of them returns a certificate or one of finitely many error values; there is no panic outcome in the
+model (every read goes through the bounds-checked readers of `Base/Der` / `Base/CertPb`, every loop has
+explicit fuel bounded by the input length). Stated as an explicit dichotomy. -/
+theorem decode_total (b pk : List UInt8) (cv : Nat) :
+    ((∃ r, V2.unmarshal b pk cv = .ok r) ∨ (∃ e, V2.unmarshal b pk cv = .error e)) ∧
+    ((∃ r, V2.recombine b pk cv = .ok r) ∨ (∃ e, V2.recombine b pk cv = .error e)) ∧
+    ((∃ r, V1.unmarshal b pk = .ok r) ∨ (∃ e, V1.unmarshal b pk = .error e)) ∧
+    ((∃ r, V1.recombine b pk cv = .ok r) ∨ (∃ e, V1.recombine b pk cv = .error e)) := by
+  refine ⟨?_, ?_, ?_, ?_⟩
+  · cases V2.unmarshal b pk cv with
+    | ok r => exact Or.inl ⟨r, rfl⟩
+    | error e => exact Or.inr ⟨e, rfl⟩
+  · cases V2.recombine b pk cv with
+    | ok r => exact Or.inl ⟨r, rfl⟩
+    | error e => exact Or.inr ⟨e, rfl⟩
+  · cases V1.unmarshal b pk with
+    | ok r => exact Or.inl ⟨r, rfl⟩
+    | error e => exact Or.inr ⟨e, rfl⟩
+  · cases V1.recombine b pk cv with
+    | ok r => exact Or.inl ⟨r, rfl⟩
+    | error e => exact Or.inr ⟨e, rfl⟩
+
+/-! ### v1 (protobuf): decode ∘ encode = id, no codec hypothesis -/
+
+open Nebula.Lemmas.CertV1RT in
+/-- **v1 round trip, standard form**: for every certificate of the shape the signer and the decoder produce
+(`V1OK`: accepted by `validate`, IPv4 prefixes of 32-bit values, whole-second bounds within int64 seconds, hex
+issuer, 32-bit curve value, byte strings shorter than 2^64), `unmarshalCertificateV1 (Marshal c) = c` — any
+name, any groups (valid UTF-8, or `Marshal` itself fails), any number of networks and unsafe networks, both
+curves, CA or host, any key and signature. -/
+theorem roundtrip_v1 (c : Cert) (h : V1OK c) (bytes : List UInt8) (hm : V1.marshal c c.publicKey = some bytes)
+    (hlen : bytes.length < 2 ^ 64) : V1.unmarshal bytes [] = .ok c := by
+  unfold V1.marshal at hm
+  cases he : V1.encodeDetails (V1.rawDetailsOf c c.publicKey) with
+  | none => rw [he] at hm; cases hm
+  | some db =>
+    rw [he] at hm
+    simp only [Option.some.injEq] at hm
+    subst hm
+    have := bytesField_length_ge 1 db
+    simp only [List.length_append] at hlen
+    exact unmarshal_marshal_aux c h c.publicKey [] db (Or.inl ⟨rfl, rfl⟩) he (by omega)
+
+open Nebula.Lemmas.CertV1RT in
+/-- **v1 round trip, handshake form**: `Recombine(Version1, MarshalForHandshakes(c), c.PublicKey(), c.Curve()) = c`. -/
+theorem roundtrip_v1_handshake (c : Cert) (h : V1OK c) (bytes : List UInt8) (hm : V1.marshal c [] = some bytes)
+    (hlen : bytes.length < 2 ^ 64) : V1.recombine bytes c.publicKey c.curve = .ok c := by
+  unfold V1.marshal at hm
+  cases he : V1.encodeDetails (V1.rawDetailsOf c []) with
+  | none => rw [he] at hm; cases hm
+  | some db =>
+    rw [he] at hm
+    simp only [Option.some.injEq] at hm
+    subst hm
+    have := bytesField_length_ge 1 db
+    simp only [List.length_append] at hlen
+    unfold V1.recombine
+    rw [unmarshal_marshal_aux c h [] c.publicKey db (Or.inr ⟨rfl, rfl⟩) he (by omega)]
+    simp
+
+open Nebula.Lemmas.CertV1RT in
+/-- The shape `V1OK` is what the decoder produces (so round trips compose: decode, encode, decode). -/
+theorem decoded_v1_ok (b pk : List UInt8) (c : Cert) (h : V1.unmarshal b pk = .ok c) (hs : V1Sized c)
+    (hi : ∀ ib, c.issuer = hexEnc ib → ib.length < 2 ^ 64) : V1OK c :=
+  v1ok_of_decoded b pk c h hs hi
 
 /-! ### Concrete round trips evaluated by the kernel (both forms), and non-vacuity -/
+
+open Nebula.Lemmas.CertV1RT in
+example : V1OK exV1Cert :=
+  { version := rfl, valid := by decide,
+    nets := by intro p hp; simp [exV1Cert] at hp; subst hp; unfold V4Prefix; decide,
+    unsafe_nets := by intro p hp; simp [exV1Cert] at hp; subst hp; unfold V4Prefix; decide,
+    nb := ⟨1, by decide, by decide, by decide⟩, na := ⟨-2, by decide, by decide, by decide⟩,
+    issuer := ⟨[0xab], by decide, by decide⟩, curve := by decide, name_len := by decide,
+    groups_len := by decide, pk_len := by decide, sig_len := by decide, ips_len := by decide, subnets_len := by decide }
+
+set_option maxRecDepth 20000 in
+open Nebula.Lemmas.CertV1RT in
+example : ∃ bytes, V1.marshal exV1Cert exV1Cert.publicKey = some bytes ∧ V1.unmarshal bytes [] = .ok exV1Cert := by
+  refine ⟨(V1.marshal exV1Cert exV1Cert.publicKey).getD [], by decide, by decide⟩
+
+open Nebula.Lemmas.CertV2RT in
+example : V2OK exV2Cert :=
+  { valid := by decide, version := rfl,
+    nets := by intro p hp; simp [exV2Cert] at hp; subst hp; unfold PfxWF; decide,
+    unsafe_nets := by intro p hp; simp [exV2Cert] at hp,
+    nb := ⟨1, by decide, by decide, by decide⟩, na := ⟨2, by decide, by decide, by decide⟩,
+    issuer := ⟨[0xab], by decide⟩, curve := by decide, sig_ne := by decide }
 
 example : validateV2 exV2Cert = .ok exV2Cert := by decide
 example : V2.unmarshal exV2Bytes [] 0 = .ok (exV2Cert, exV2Raw) := by decide
